@@ -739,12 +739,18 @@ func (a *Assembler) insertIntoConn(t *layers.TCP, conn *connection, ts time.Time
 	prev, current := conn.traverseConn(Sequence(t.Seq))
 	conn.pushBetween(prev, current, p, p2)
 	conn.pages += numPages
-	if (a.MaxBufferedPagesPerConnection > 0 && conn.pages >= a.MaxBufferedPagesPerConnection) ||
-		(a.MaxBufferedPagesTotal > 0 && a.pc.used >= a.MaxBufferedPagesTotal) {
+	// Releasing one buffered page does not make room for a packet of several
+	// pages: go on until the connection is below the limits again (or has
+	// nothing buffered any more, or the end of the stream has been released).
+	for conn.first != nil && ((a.MaxBufferedPagesPerConnection > 0 && conn.pages >= a.MaxBufferedPagesPerConnection) ||
+		(a.MaxBufferedPagesTotal > 0 && a.pc.used >= a.MaxBufferedPagesTotal)) {
 		if *debugLog {
 			log.Printf("%v hit max buffer size: %+v, %v, %v", conn.key, a.AssemblerOptions, conn.pages, a.pc.used)
 		}
 		a.addNextFromConn(conn)
+		if a.ret[len(a.ret)-1].End {
+			break
+		}
 	}
 }
 
